@@ -175,6 +175,30 @@ def b_nonpure(ch):
     return finish_deck(st, [(1, e), (2, ('^', 1))], imps)
 
 
+def b_dupunion(ch):
+    """unions whose non-main members are slivers between two numbers of one surface: they become patently
+    empty only after de-duplication, i.e. in remove_empty_volumes"""
+    st = St('c01 dup union')
+    slivers = [('*', 2, -11), ('*', 11, -2), ('*', -4, 12), ('*', 13, -2), ('*', 2, -13), ('*', -12, 4)]
+    mains = [('*', 1, -3), ('*', ('*', 1, -3), 4), ('*', -1, 4), 3, ('*', 2, ('*', -3, -4))]
+    main = ch.choose('main', mains, free=True)
+    s1 = ch.choose('sliver1', slivers, free=True)
+    third = ch.choose('third', [None] + slivers[:3] + [-1, ('*', 3, 4)], free=True)
+    order = ch.choose('order', ['main-first', 'sliver-first', 'main-last'], free=True)
+    members = [main, s1] + ([third] if third is not None else [])
+    if order == 'sliver-first':
+        members = [s1, main] + members[2:]
+    elif order == 'main-last':
+        members = members[1:] + [main]
+    e = members[0]
+    for m in members[1:]:
+        e = (':', e, m)
+    if ch.choose('inside', [False, True], free=True):
+        e = ('*', e, -5)
+    imps = ch.choose('imps', IMPS2, free=True)
+    return finish_deck(st, [(1, e), (2, ('^', 1))], imps)
+
+
 def b_chain(free=False):
     """#n of a cell that itself uses #m and #( ): complement chains."""
     def build(ch):
@@ -204,6 +228,7 @@ def scenarios(tier):
                 'sphere, cylinder, one-sheet cones (surface collections) and planes, k<=2; witnesses + lattice'),
             Scn('p2-dup-k3', b_p2(LITSD, [1, 2, 3]), None, None,
                 'one surface under several numbers (slivers that become patently empty after de-duplication)'),
+            Scn('dup-union', b_dupunion, None, None, 'unions with members that are empty only after de-duplication'),
             Scn('nonpure-union', b_nonpure, None, None, 'unions of intersections that contain unions (helper planes)'),
             Scn('p4-k3', b_p4(LITS4, [1, 2, 3], free=False), 2, 3, 'explicit De Morgan partner'),
             Scn('chain', b_chain(), 2, 3, 'complement chains #n of #m'),
@@ -219,6 +244,7 @@ def scenarios(tier):
             'sphere, cylinder, one-sheet cones and planes, k<=3; witnesses + lattice'),
         Scn('p3-k2', b_p3(LITS4, [1, 2]), None, None, 'three cells, k<=2 per cell'),
         Scn('nonpure-union', b_nonpure, None, None, 'unions of intersections that contain unions (helper planes)'),
+        Scn('dup-union', b_dupunion, None, None, 'unions with members that are empty only after de-duplication'),
         Scn('p2-dup-k4', b_p2(LITSD, [1, 2, 3, 4]), None, None,
             'one surface under several numbers (slivers that become patently empty after de-duplication)'),
         Scn('p4-k3', b_p4(LITS4, [1, 2, 3]), None, None, 'explicit De Morgan partner, full'),
